@@ -12,7 +12,9 @@ Translated:
                              `self.entlen = …`, the /Index walk (range test, `index +=` on hit / miss, start value)
                              -> entlenOf, rowOffset, rowBytes, field1..3, objidsRowOffset, objidsRowBytes, objidsField1,
                                 inRange, indexHit, indexMiss, indexStart
-  PDFXRef.load               b"trailer", field counts 2 / 3, b"n" -> kwTrailer, headerFields, entryFields, inUseMarker
+  PDFXRef.load               b"trailer", field counts 2 / 3, b"n" -> kwTrailer, headerFields, entryFields, inUseMarker;
+                             tuple unpacking of an entry line, the stored tuple, range(start, start + nobjs)
+                             -> entryTuple, tableEntryOf, subsectionFirst, subsectionStop
   PDFDocument.find_xref      b"startxref"         -> kwStartxref
   PDFDocument._getobj_objstm `i = n * 2 + index`  -> objstmIndex
   PDFDocument.read_xref_from order of the trailer keys followed -> chainOrder
@@ -371,7 +373,46 @@ def gen_table(doc: ast.Module) -> List[str]:
             sep = c.args[0].value
     if len(counts) != 2 or marker is None or sep is None or len(sep) != 1:
         raise P.Untranslatable("PDFXRef.load: field counts / in-use marker / separator")
-    return [f"/-- `line.startswith({kw!r})` in `PDFXRef.load` -/\ndef kwTrailer : Bytes := {P.lean_bytes(kw)}\n\n",
+    # `(pos_b, genno_b, use_b) = f`, `pos_i = safe_int(pos_b)`, `genno_i = safe_int(genno_b)`,
+    # `self.offsets[objid] = (None, pos_i, genno_i)`: which split field is the offset, the generation, the marker
+    tup = [st for st in walk_type(fn, ast.Assign) if len(st.targets) == 1 and isinstance(st.targets[0], ast.Tuple)
+           and is_name(st.value, "f") and len(st.targets[0].elts) == 3 and all(isinstance(e, ast.Name) for e in st.targets[0].elts)]
+    if len(tup) != 1:
+        raise P.Untranslatable("PDFXRef.load: `(a, b, c) = f` not found")
+    order = [e.id for e in tup[0].targets[0].elts]
+    src = {}
+    for nm in ("pos_i", "genno_i"):
+        v = find_local_assign(fn, nm)
+        if not (isinstance(v, ast.Call) and is_name(v.func, "safe_int") and len(v.args) == 1 and isinstance(v.args[0], ast.Name)
+                and v.args[0].id in order):
+            raise P.Untranslatable(f"PDFXRef.load: {nm} = safe_int(<field>)")
+        src[nm] = order.index(v.args[0].id)
+    if "use_b" not in order:
+        raise P.Untranslatable("PDFXRef.load: use_b is not one of the fields")
+    store = [st for st in walk_type(fn, ast.Assign) if len(st.targets) == 1 and isinstance(st.targets[0], ast.Subscript)
+             and isinstance(st.targets[0].value, ast.Attribute) and st.targets[0].value.attr == "offsets"
+             and is_name(st.targets[0].slice, "objid")]
+    if len(store) != 1 or not isinstance(store[0].value, ast.Tuple) or len(store[0].value.elts) != 3:
+        raise P.Untranslatable("PDFXRef.load: self.offsets[objid] = (…, …, …)")
+    els = store[0].value.elts
+    if not (isinstance(els[0], ast.Constant) and els[0].value is None and all(isinstance(e, ast.Name) and e.id in src for e in els[1:])):
+        raise P.Untranslatable("PDFXRef.load: stored tuple is not (None, <pos_i|genno_i>, <pos_i|genno_i>)")
+    rng = [c for c in walk_type(fn, ast.Call) if is_name(c.func, "range") and len(c.args) == 2]
+    if len(rng) != 1:
+        raise P.Untranslatable("PDFXRef.load: range(start, stop)")
+    extra = [
+        "/-- `(pos_b, genno_b, use_b) = f` with `pos_i = safe_int(…)`, `genno_i = safe_int(…)`, `use_b != …`: the split\n"
+        "fields of an entry line as (offset field, generation field, marker field) -/\n"
+        "def entryTuple {α : Type} (f0 f1 f2 : α) : α × α × α := "
+        f"(f{src['pos_i']}, f{src['genno_i']}, f{order.index('use_b')})\n\n",
+        "/-- `self.offsets[objid] = (…)` in `PDFXRef.load` -/\n"
+        "def tableEntryOf (pos_i genno_i : Nat) : Option Nat × Nat × Nat := "
+        f"(none, {els[1].id}, {els[2].id})\n\n",
+        "/-- `for objid in range(…, …)`: first object number and stop of a subsection -/\n"
+        f"def subsectionFirst (start nobjs : Int) : Int := {nat_expr2(rng[0].args[0], ['start', 'nobjs'])}\n\n"
+        f"def subsectionStop (start nobjs : Int) : Int := {nat_expr2(rng[0].args[1], ['start', 'nobjs'])}\n\n",
+    ]
+    return extra + [f"/-- `line.startswith({kw!r})` in `PDFXRef.load` -/\ndef kwTrailer : Bytes := {P.lean_bytes(kw)}\n\n",
             f"/-- `len(f) != {counts[0]}` (subsection header) -/\ndef headerFields : Nat := {counts[0]}\n\n",
             f"/-- `len(f) != {counts[1]}` (entry line) -/\ndef entryFields : Nat := {counts[1]}\n\n",
             f"/-- `use_b != {marker!r}` -/\ndef inUseMarker : Bytes := {P.lean_bytes(marker)}\n\n",
